@@ -23,6 +23,8 @@ pub enum WOp {
 pub struct CustomSpec {
     pub chunked: bool,
     pub ops: Vec<WOp>,
+    /// the body's own source fails before this operation: `Body::write` returns an error
+    pub fail_at: Option<usize>,
 }
 
 impl CustomSpec {
@@ -50,7 +52,10 @@ impl Body for ScriptedBody {
     }
     fn write<W: Write>(&mut self, mut w: W) -> std::io::Result<()> {
         self.writes_done += 1;
-        for o in &self.spec.ops {
+        for (k, o) in self.spec.ops.iter().enumerate() {
+            if self.spec.fail_at == Some(k) {
+                return Err(std::io::Error::new(std::io::ErrorKind::Other, "the body's source failed"));
+            }
             match o {
                 WOp::Write(b) => {
                     if b.is_empty() {
@@ -267,7 +272,7 @@ pub fn gen_custom(g: &mut G, max: usize) -> CustomSpec {
     if ops.iter().any(|o| matches!(o, WOp::Write(b) | WOp::WriteAll(b) if b.len() >= 65536)) {
         g.probe("custom-body-write-64k-or-more");
     }
-    CustomSpec { chunked, ops }
+    CustomSpec { chunked, ops, fail_at: None }
 }
 
 pub fn gen_body(g: &mut G, max: usize) -> BodySpec {
